@@ -94,7 +94,7 @@ Print Assumptions c16_create_reading.
 
 (* a found row with Assign: exactly that row is updated, the record handed back is the row stored *)
 Theorem c16_found_assign : forall t now wh ic attrs assigns r,
-  wf t -> first_match t (wh ++ ic) = Some r -> assigns <> [] ->
+  wf t -> unscoped ic = false -> first_match t (wh ++ ic) = Some r -> assigns <> [] ->
   names_key (assign_map assigns) = false ->
   let res := ref_foc t now wh (wh ++ ic) attrs assigns in
   let r' := with_uat now (set_pairs (assign_map assigns) r) in
